@@ -473,7 +473,8 @@ def main(run):
                 e0 = np.linalg.eigvalsh((D[n] + D[n].conj().T) / 2)
                 for r, dr in zip(sel, DR):
                     er = np.linalg.eigvalsh((dr + dr.conj().T) / 2)
-                    if np.abs(er - e0).max() > TOL * nd:
+                    # the Gonze-Lee reciprocal sum is truncated at a cutoff: invariance holds to its convergence level
+                    if np.abs(er - e0).max() > (1e-5 if method == "gonze" else TOL) * nd:
                         viol2("relabelled/rotation", "spectrum at Rq differs from spectrum at q by %.3g (||D|| = %.3g)" % (np.abs(er - e0).max(), nd),
                               ql[n], R=np.array(rops[r]).tolist())
                 run.count("relabelled rotation pairs nac=%s" % method, len(sel), section="oracle")
@@ -496,7 +497,9 @@ def main(run):
         sc_ = max(float(np.abs(spectra["original"]).max()), floor)
         dev = float(np.abs(spectra[mname] - spectra["original"]).max())
         run.count("description invariance %s nac=%s" % (mname, method), section="oracle")
-        if dev > 10 * TOL * sc_:
+        run.cov["oracle"]["description invariance: worst eigenvalue deviation / scale (nac=%s)" % method] = max(
+            run.cov["oracle"].get("description invariance: worst eigenvalue deviation / scale (nac=%s)" % method, 0.0), dev / sc_)
+        if dev > (1e-5 if method == "gonze" else 10 * TOL) * sc_:
             run.violation("Phonopy.run_qpoints", "description-invariance/nac=%s" % method,
                           "spectrum at qmap(q) in the relabelled description (%s, volume sign %+d) differs from the spectrum at q in the original "
                           "description by %.3g (scale %.3g)" % (mname, int(info["volume_sign"]), dev, sc_),
